@@ -73,6 +73,110 @@ def addEvidence : List Evidence → Evidence → List Evidence
   | [], e => [e]
   | x :: xs, e => if x.1 == e.1 then (x.1, e.2) :: xs else x :: addEvidence xs e
 
+/-! ### Evidence bytes (`x/evm/types/proofs_hash_bytes.go`)
+
+`VerifyEvidence` groups evidence by `sha256(BytesToHash(proof))`. Up to here a group key is an
+abstract natural; this layer models where the key comes from: the proof *content* and the bytes
+`BytesToHash` derives from it, so that "byte-identical evidence" is a statement about what the
+validators submitted and not about the grouping key. A byte is a `Fin 256`; every string field of a
+proof is an arbitrary byte list. `TxExecutedProof` (RLP of transaction and receipt, geth) is not
+modelled here; the harness evaluates the clause on it directly.
+
+`Proof.bytes` is the encoding of repo commit d674fa52 (a tag per proof type, every free-form field
+hex encoded); `Proof.bytesOld` is the encoding before it, kept to state the defect it repaired. -/
+namespace Enc
+
+abbrev Byte := Fin 256
+abbrev Bytes := List Byte
+
+def ofChar (c : Char) : Byte := Fin.ofNat 256 c.toNat
+
+/-- an ASCII literal as bytes (for readable examples) -/
+def str (s : String) : Bytes := s.toList.map ofChar
+
+/-- `fmt.Sprintf("%d", n)` -/
+def decimal (n : Nat) : Bytes := (Nat.toDigits 10 n).map ofChar
+
+inductive Proof where
+  /-- `SmartContractExecutionErrorProof{ErrorMessage}` -/
+  | err (msg : Bytes)
+  /-- `ValidatorBalancesAttestationRes{BlockHeight, Balances}` -/
+  | balances (height : Nat) (bals : List Bytes)
+  /-- `ReferenceBlockAttestationRes{BlockHeight, BlockHash}` -/
+  | refBlock (height : Nat) (hash : Bytes)
+deriving Repr, DecidableEq
+
+/-- one lower-case hex digit -/
+def hexDigit (n : Nat) : Byte := if n < 10 then Fin.ofNat 256 (48 + n) else Fin.ofNat 256 (87 + n)
+
+/-- `fmt.Sprintf("%x", s)` of a Go string: two lower-case hex digits per byte -/
+def hexStr : Bytes → Bytes
+  | [] => []
+  | b :: bs => hexDigit (b.val / 16) :: hexDigit (b.val % 16) :: hexStr bs
+
+/-- `/` -/
+def slash : Byte := 47
+
+/-- `for _, val := range h.Balances { res = append(res, fmt.Sprintf("/%x", val)...) }` -/
+def joinSlash : List Bytes → Bytes
+  | [] => []
+  | b :: bs => slash :: (hexStr b ++ joinSlash bs)
+
+/-- `error/` -/
+def tagErr : Bytes := [101, 114, 114, 111, 114, 47]
+/-- `balances/` -/
+def tagBal : Bytes := [98, 97, 108, 97, 110, 99, 101, 115, 47]
+/-- `refblock/` -/
+def tagRef : Bytes := [114, 101, 102, 98, 108, 111, 99, 107, 47]
+
+/-- `BytesToHash`: `error/%x`, `balances/%d` + `/%x` per balance, `refblock/%d/%x` -/
+def Proof.bytes : Proof → Bytes
+  | .err m => tagErr ++ hexStr m
+  | .balances h bs => tagBal ++ (decimal h ++ joinSlash bs)
+  | .refBlock h x => tagRef ++ (decimal h ++ slash :: hexStr x)
+
+/-- `for _, val := range h.Balances { res = append(res, []byte("\n"+val)...) }` (old) -/
+def joinNl : List Bytes → Bytes
+  | [] => []
+  | b :: bs => (10 : Byte) :: (b ++ joinNl bs)
+
+/-- `BytesToHash` before d674fa52: the fields written one after the other -/
+def Proof.bytesOld : Proof → Bytes
+  | .err m => m
+  | .balances h bs => decimal h ++ joinNl bs
+  | .refBlock h x => decimal h ++ x
+
+/-- position of the first entry equal to `b` (`length` if none) -/
+def firstIdx (b : Bytes) : List Bytes → Nat
+  | [] => 0
+  | x :: xs => if x = b then 0 else firstIdx b xs + 1
+
+/-- the group key of a proof among `all` submitted byte strings: 1 + the position of the first
+    submission with the same bytes (SHA-256 of equal bytes is equal; of different bytes different:
+    the trusted hypothesis). The representative Go keeps for a group (`val.evidence`, set once) is the
+    proof at that position. -/
+def keyIn (all : List Bytes) (b : Bytes) : Nat := firstIdx b all + 1
+
+/-- evidence with proof content → evidence with group keys, under encoding `enc` -/
+def keysWith (enc : Proof → Bytes) (evs : List (Nat × Proof)) : List Evidence :=
+  evs.map (fun e => (e.1, keyIn (evs.map (fun x => enc x.2)) (enc e.2)))
+
+def keys (evs : List (Nat × Proof)) : List Evidence := keysWith Proof.bytes evs
+
+/-- `VerifyEvidence` on proof content; a winner `k` stands for the proof of the `k`-th entry -/
+def verifyProofs (s : Snapshot) (evs : List (Nat × Proof)) : Verdict :=
+  verifyEvidence s (keys evs)
+
+/-- `VerifyEvidence` as it grouped before d674fa52 -/
+def verifyProofsOld (s : Snapshot) (evs : List (Nat × Proof)) : Verdict :=
+  verifyEvidence s (keysWith Proof.bytesOld evs)
+
+/-- the addresses that supplied exactly proof `p` -/
+def suppliers (evs : List (Nat × Proof)) (p : Proof) : List Nat :=
+  (evs.filter (fun e => e.2 = p)).map (·.1)
+
+end Enc
+
 /-! ### Median on `uint64` -/
 
 def U64 : Nat := 18446744073709551616
